@@ -3,6 +3,22 @@ import Heph.Spec.Oracle
 oracle model. -/
 namespace Heph.Oracle
 
+/-- results of the model are compared by `decide` in the examples and counterexamples -/
+deriving instance DecidableEq for Except
+
+/-- pids of a batch are keys of a dict: a pid names one program -/
+theorem eq_of_pid_eq {ps : List Prog} (hnd : (ps.map (·.pid)).Nodup) {p q : Prog}
+    (hp : p ∈ ps) (hq : q ∈ ps) (h : p.pid = q.pid) : p = q := by
+  induction ps with
+  | nil => cases hp
+  | cons a t ih =>
+    simp only [List.map_cons, List.nodup_cons, List.mem_map, not_exists, not_and] at hnd
+    rcases List.mem_cons.1 hp with hpa | hp <;> rcases List.mem_cons.1 hq with hqa | hq
+    · rw [hpa, hqa]
+    · exact absurd (by rw [← hpa]; exact h.symm) (hnd.1 q hq)
+    · exact absurd (by rw [← hqa]; exact h) (hnd.1 p hp)
+    · exact ih hnd.2 hp hq
+
 theorem mem_keys_dictSet (d : Reported) (k : Nat) (v : Option String) (x : Nat) :
     x ∈ keys (dictSet d k v) ↔ x = k ∨ x ∈ keys d := by
   induction d with
